@@ -18,7 +18,7 @@ def step (st : State) (line : String) : State × String :=
       match stepUpd st name rest with
       | some r => r
       | none => (st, "bad-args " ++ name)
-    else (st, runOpWith (allOps ++ opsTyped st) line)
+    else (st, runOpWith (allOps ++ opsTyped st ++ opsFlt st) line)
   | none => (st, "bad-op")
 
 end Driver
